@@ -68,7 +68,7 @@ Fixpoint run_ops (t : octree) (ops : list oc_op) : outcome (list oc_obs) :=
   | OPalette :: r =>
       let* p := build_palette t in let* o := run_ops t r in Ok (BPal p :: o)
   | ODigraph :: r =>
-      if has_zero_leaf t then Panic 1104
+      if has_zero_leaf t then Panic 13002
       else let* o := run_ops t r in Ok (BDig (digraph t) :: o)
   end.
 
@@ -153,7 +153,7 @@ Fixpoint rnd_stream (n : nat) (st : N) : list N :=
 Definition acc_model (n : N) (c : rgb) : outcome rgb :=
   let '(r, g, b) := c in
   if n =? 0 then Err 0
-  else if leaf_fits (mkLeaf (n * r) (n * g) (n * b) n) then Ok c else Panic 1129.
+  else if leaf_fits (mkLeaf (n * r) (n * g) (n * b) n) then Ok c else Panic 13008.
 
 Definition c13_check (c : c13_case) : bool * bool :=
   match c with
